@@ -52,6 +52,19 @@ fn colours(tier: Tier) -> Vec<Colour> {
             }
         }
     }
+    // thorough: over-range (HDR) images of the 9³ grid, 4× the sRGB luminance
+    if tier == Tier::Thorough {
+        for r in 0..9 {
+            for g in 0..9 {
+                for b in 0..9 {
+                    if r + g + b > 0 {
+                        let x = srgb.to_xyz([r as f64 / 8.0, g as f64 / 8.0, b as f64 / 8.0]);
+                        v.push(([4.0 * x[0], 4.0 * x[1], 4.0 * x[2]], "outside-srgb"));
+                    }
+                }
+            }
+        }
+    }
     // the Rec. 2020 primaries (real colours outside sRGB)
     for p in [[1.0, 0.0, 0.0], [0.0, 1.0, 0.0], [0.0, 0.0, 1.0]] {
         v.push((pv::refmodel::rgb::LIN_REC2020.to_xyz(p), "outside-srgb"));
@@ -96,7 +109,7 @@ fn axes(tier: Tier) -> Axes {
             let mut sur = sur8;
             // off-centre points of both segments and the documented clamp at both ends
             sur.extend([Sur::Percent(2.5), Sur::Percent(12.5), Sur::Percent(-5.0), Sur::Percent(25.0)]);
-            Axes { la: vec![40.0, 0.2, 4.0, 64.0, 318.0, 1000.0], yb: vec![0.2, 0.05, 0.5, 0.9], sur, disc: vec![Disc::Auto, Disc::Custom(0.0), Disc::Custom(0.5), Disc::Custom(1.0), Disc::Custom(1.5)] }
+            Axes { la: vec![40.0, 0.2, 4.0, 64.0, 318.0, 1000.0, 0.01, 1e4], yb: vec![0.2, 0.05, 0.5, 0.9], sur, disc: vec![Disc::Auto, Disc::Custom(0.0), Disc::Custom(0.5), Disc::Custom(1.0), Disc::Custom(1.5)] }
         }
     }
 }
@@ -188,7 +201,7 @@ fn bound_text(sub: Sub) -> &'static str {
         Sub::PartialEq => "every point (also outside the model's domain, NaN-aware): P::from_xyz and P::from_full equal the corresponding fields of Cam16::from_xyz bit for bit, 6 partial types",
         Sub::Baked => "every point: Cam16::from_xyz with un-baked Parameters equals the BakedParameters route bit for bit",
         Sub::IntoFull => "P::into_full(P::from_xyz(x)) vs Cam16::from_xyz(x), five attributes relative + hue identical, 6 partial types, every in-domain point",
-        Sub::Interconvert => "all 36 ordered pairs (P1, P2): P2::from_full(P1.into_full()).into_full() vs P1.into_full() — J↔Q and C↔M↔s are mutually inverse — every in-domain point",
+        Sub::Interconvert => "all 36 ordered pairs (P1, P2): P2::from_full(P1.into_full()).into_full() vs P1.into_full() — J↔Q and C↔M↔s are mutually inverse — every in-domain point (pairs whose P1::into_full is itself wrong are reported by into-full only)",
         Sub::Forward => "Cam16::from_xyz vs the independent f64 reference (Li et al. 2017, offset form): J, Q, C·e^{ih}, M·e^{ih}, s² at every in-domain point",
         Sub::Ucs => "from each point's Cam16Jmh: Cam16UcsJmh (vs J' = 1.7J/(1+0.007J), M' = ln(1+0.0228M)/0.0228), back to Cam16Jmh, Cam16UcsJab (vs a' = M'cos h, b' = M'sin h; from UcsJmh and directly from Jmh), back to Cam16UcsJmh and to Cam16Jmh",
         Sub::WhiteJ => "the adopted white of every set of viewing conditions (as reported by WhitePointParameter::into_xyz): J = 100",
@@ -214,7 +227,7 @@ fn run_float<T: Cam>(ctx: &Ctx, conds: &[CondSpec], cols: &[Colour], ax: &Axes, 
             &space,
             true,
             &format!(
-                "{} viewing conditions = white point {{StaticWp<D65>, StaticWp<D50>, dynamic D65, E, A}} × L_A {:?} × Y_b {:?} × surround {:?} × discounting {:?}; × ({} lattice colours [9³ (thorough 17³) sRGB grid images, 4 near-black, 56 linear-sRGB points with components in {{-0.2, 0, 0.5, 1.2}} outside [0,1], Rec.2020 primaries, 124 points of the XYZ cube {{0,.3,.6,.9,1.2}}³] + the adopted white, duplicates in {} removed); every palette operation of the property executed at every point",
+                "{} viewing conditions = white point {{StaticWp<D65>, StaticWp<D50>, dynamic D65, E, A}} × L_A {:?} × Y_b {:?} × surround {:?} × discounting {:?}; × ({} lattice colours [9³ (thorough 17³) sRGB grid images, 4 near-black, 56 linear-sRGB points with components in {{-0.2, 0, 0.5, 1.2}} outside [0,1], Rec.2020 primaries, thorough: the 9³ grid at 4× luminance, 124 points of the XYZ cube {{0,.3,.6,.9,1.2}}³] + the adopted white, duplicates in {} removed); every palette operation of the property executed at every point",
                 conds.len(),
                 ax.la,
                 ax.yb,
